@@ -29,6 +29,7 @@ type Instance struct {
 	Errs   map[string]string `json:"errs"`
 	Via    []int    `json:"via"`
 	EachSrc bool    `json:"eachSrc"` // one source listener (one ingress goroutine) per listener-fed connection    // ingress ids that arrive through an attached source listener (IngressListener) instead of IngressConn
+	SrcErr string   `json:"srcErr"` // "custom": once shut down, a source listener fails with an error of its own (a session-style listener), not net.ErrClosed
 	Settle int      `json:"settle"` // microseconds to wait after starting each op (0: none, stress)
 	Seed   int64    `json:"seed"`
 }
@@ -79,6 +80,7 @@ func (c *conn) SetWriteDeadline(time.Time) error { return nil }
 // srcListener is a channel-fed source listener attached with IngressListener.  The moment the ingress
 // goroutine takes a connection off it is that connection's IngressStart.
 type srcListener struct {
+	custom bool
 	ch     chan *conn
 	closed chan struct{}
 	once   sync.Once
@@ -96,6 +98,9 @@ func (s *srcListener) Accept() (net.Conn, error) {
 		s.rec.emit("IngressStart", c.id, 0, "listener")
 		return c, nil
 	case <-s.closed:
+		if s.custom {
+			return nil, errors.New("session shutdown")
+		}
 		return nil, net.ErrClosed
 	}
 }
@@ -130,7 +135,7 @@ func Run(in Instance, _ int64) ([]Line, error) {
 	srcs := map[int]*srcListener{}
 	var allSrcs []*srcListener
 	newSrc := func() (*srcListener, error) {
-		s := &srcListener{ch: make(chan *conn, 16), closed: make(chan struct{}), rec: rec}
+		s := &srcListener{ch: make(chan *conn, 16), closed: make(chan struct{}), rec: rec, custom: in.SrcErr == "custom"}
 		if err := ln.IngressListener(s); err != nil {
 			return nil, err
 		}
@@ -263,6 +268,14 @@ func Run(in Instance, _ int64) ([]Line, error) {
 				break
 			}
 			time.Sleep(200 * time.Microsecond)
+		}
+		if in.SrcErr == "custom" {
+			// the sources shut down (with their own error) while the multiplexing listener is closed or still open; the
+			// ingress goroutines get to see that before the instance ends
+			for _, s := range allSrcs {
+				s.Close()
+			}
+			time.Sleep(5 * time.Millisecond)
 		}
 		for _, s := range allSrcs {
 			// the ingress goroutine's return is not observable from outside; it has no effect on anything else,
